@@ -126,7 +126,9 @@ class IndexableArray(RaggedBase):
             )
         col = np.asanyarray(col)
         col = np.where(col < 0, self._shape.lengths[row]+col, col)
-        flat_idx = self._shape.starts[row] + col
+        # a not yet materialised column-sliced selection addresses every col_step'th cell
+        col_step = self._shape.col_step if isinstance(self._shape, RaggedView2) else 1
+        flat_idx = self._shape.starts[row] + col*col_step
         return flat_idx, None
 
     def _get_view(self, view, do_split=False):
